@@ -4,7 +4,7 @@
    empty store; the backup is only consulted when the data file does not parse, and is opened without an existence test.
    Built with the rest, never part of a verdict.  Witnesses use the toy serialiser (n = brace, n ones, brace; 0 = empty store);
    each was replayed against the real driver (notes/C08.md, corpus/C08). *)
-From QT Require Import C08.Spec C08.Check C08.Framing C08.FramingThm.
+From QT Require Import C08.Spec C08.Check C08.Oper C08.Framing C08.FramingThm.
 
 Definition save_prog_old : list op := [
   OSkipUnless (CAnd CFlag (CExists FData)) 1;
@@ -70,3 +70,29 @@ Qed.
 Lemma C08_old_partial_with_backup_loads_pre :
   load_c nat toy_parse O true load_prog_old (mkfs (Some [123; 49]) (Some (toy_ser 2)) None) = LOk 2%nat.
 Proof. vm_compute. reflexivity. Qed.
+
+(* not a defect of any committed version: what the operation-level obligation excludes.  A remove that saves once per removed
+   record (save inside the loop) is rejected by tree_ok, and with the repaired save procedure a crash after the first of two
+   per-record saves restarts with a store that is neither pre (3) nor post (1) *)
+Definition save_prog_fixed : list op := [
+  OCreate FTemp; OWrite FTemp; OFlush FTemp; OFsync FTemp; OClose FTemp;
+  OSkipUnless (CAnd CFlag (CExists FData)) 1; ORename FData FBackup; ORename FTemp FData].
+
+Definition load_prog_fixed : lprog :=
+  let backup := LIfFlag (LIfExists FBackup (LParse FBackup LRaise) LRaise) LRaise in
+  let missing := LIfFlag (LIfExists FBackup (LParse FBackup LRaise) LRetEmpty) LRetEmpty in
+  LIfExists FData (LIfEmpty FData missing (LParse FData backup)) missing.
+
+Lemma C08_save_in_loop_tree_refuted : tree_ok (PSeq PMem (PSeq (PLoop (PSeq PMem PSave)) PExit)) = false.
+Proof. vm_compute. reflexivity. Qed.
+
+Lemma C08_save_per_record_refuted :
+  let chg := fun (_ : nat) (n : nat) => pred n in
+  let p := [OMem; OSave; OMem; OSave] in
+  check_all save_prog_fixed load_prog_fixed = true /\ one_save_last p = false
+  /\ exists s', In s' (op_crash_states nat toy_ser chg save_prog_fixed true p 0 3%nat (mkfs (Some (toy_ser 3)) None None))
+               /\ load_c nat toy_parse O true load_prog_fixed s' = LOk 2%nat /\ op_mem nat chg p 0 3%nat = 1%nat.
+Proof.
+  split; [vm_compute; reflexivity|]. split; [reflexivity|].
+  exists (mkfs (Some (toy_ser 2)) (Some (toy_ser 3)) None). split; [vm_compute; auto 40|]. split; vm_compute; reflexivity.
+Qed.
